@@ -1,0 +1,214 @@
+//! Verification probe. Only compiled with `--cfg zinoma_verif`.
+//!
+//! Instrumented code calls [`emit`] (record one event, globally sequence-numbered under one
+//! mutex), [`point`] (record, then possibly wait or crash: gate and crash point in one) and
+//! [`virtual_build`] (lets a harness stand in for the build shell). A harness that mounts the
+//! zinoma modules installs its own [`Probe`] with [`install`]; the stock binary falls back on an
+//! environment-driven probe:
+//!
+//! * `ZINOMA_VERIF_TRACE=<file>`: append one JSON object per event to `<file>`;
+//! * `ZINOMA_VERIF_CRASH=<point>[@<target>][#<k>]`: `abort()` at the k-th arrival at `<point>`;
+//! * `ZINOMA_VERIF_HOLD=<point>[@<target>]=<path>`: at `<point>`, wait until `<path>` exists.
+#![allow(dead_code)]
+
+use async_std::channel::Receiver;
+use std::future::Future;
+use std::io::Write;
+use std::pin::Pin;
+use std::sync::atomic::{AtomicU64, Ordering};
+use std::sync::{Mutex, OnceLock};
+
+pub type Fields<'a> = &'a [(&'a str, String)];
+pub type Gate = Pin<Box<dyn Future<Output = ()> + Send>>;
+
+pub enum Verdict {
+    Ok,
+    Fail,
+}
+
+pub enum VirtualOutcome {
+    Completed,
+    Failed,
+    Cancelled,
+}
+
+pub trait Probe: Send + Sync {
+    /// Called with the global sequence lock held; `fields` values are JSON fragments.
+    fn event(&self, seq: u64, ev: &str, target: &str, fields: Fields);
+    /// Called after the event of a [`point`] has been recorded.
+    fn gate(&self, _point: &str, _target: &str) -> Option<Gate> {
+        None
+    }
+    /// `Some(verdicts)` replaces the build shell of `target` by a wait on `verdicts`.
+    fn virtual_build(&self, _target: &str) -> Option<Receiver<Verdict>> {
+        None
+    }
+    fn real_watchers(&self) -> bool {
+        true
+    }
+    fn register_invalidator(&self, _target: &str, _f: Box<dyn Fn() -> bool + Send + Sync>) {}
+}
+
+static PROBE: OnceLock<Box<dyn Probe>> = OnceLock::new();
+static SEQ: Mutex<u64> = Mutex::new(0);
+
+pub fn install(probe: Box<dyn Probe>) {
+    let _ = PROBE.set(probe);
+}
+
+fn probe() -> &'static dyn Probe {
+    PROBE.get_or_init(|| Box::new(EnvProbe::from_env())).as_ref()
+}
+
+/// JSON string literal.
+pub fn js(s: &str) -> String {
+    let mut out = String::with_capacity(s.len() + 2);
+    out.push('"');
+    for c in s.chars() {
+        match c {
+            '"' => out.push_str("\\\""),
+            '\\' => out.push_str("\\\\"),
+            '\n' => out.push_str("\\n"),
+            c if (c as u32) < 0x20 => out.push_str(&format!("\\u{:04x}", c as u32)),
+            c => out.push(c),
+        }
+    }
+    out.push('"');
+    out
+}
+
+/// JSON array of string literals, sorted (for hash sets).
+pub fn js_set<I: IntoIterator<Item = String>>(items: I) -> String {
+    let mut v: Vec<String> = items.into_iter().collect();
+    v.sort();
+    format!(
+        "[{}]",
+        v.iter().map(|s| js(s)).collect::<Vec<_>>().join(",")
+    )
+}
+
+pub fn emit(ev: &str, target: &str, fields: Fields) {
+    let p = probe();
+    let mut seq = SEQ.lock().unwrap_or_else(|e| e.into_inner());
+    *seq += 1;
+    p.event(*seq, ev, target, fields);
+}
+
+pub async fn point(name: &str, target: &str, fields: Fields<'_>) {
+    emit(name, target, fields);
+    if let Some(gate) = probe().gate(name, target) {
+        gate.await
+    }
+}
+
+pub fn real_watchers() -> bool {
+    probe().real_watchers()
+}
+
+pub fn register_invalidator(target: &str, f: Box<dyn Fn() -> bool + Send + Sync>) {
+    probe().register_invalidator(target, f)
+}
+
+pub async fn virtual_build<C>(target: &str, cancellation: &mut Receiver<C>) -> Option<VirtualOutcome> {
+    use futures::FutureExt;
+    let verdicts = probe().virtual_build(target)?;
+    emit("vbuild_wait", target, &[]);
+    let outcome = futures::select! {
+        _ = cancellation.recv().fuse() => VirtualOutcome::Cancelled,
+        verdict = verdicts.recv().fuse() => match verdict {
+            Ok(Verdict::Ok) => VirtualOutcome::Completed,
+            Ok(Verdict::Fail) => VirtualOutcome::Failed,
+            // The harness dropped the script: it never finishes by itself.
+            Err(_) => { let _ = cancellation.recv().await; VirtualOutcome::Cancelled }
+        },
+    };
+    let name = match outcome {
+        VirtualOutcome::Completed => "ok",
+        VirtualOutcome::Failed => "fail",
+        VirtualOutcome::Cancelled => "cancelled",
+    };
+    emit("vbuild_done", target, &[("outcome", js(name))]);
+    Some(outcome)
+}
+
+struct EnvProbe {
+    trace: Option<Mutex<std::fs::File>>,
+    crash: Option<(String, Option<String>, u64)>,
+    crash_hits: AtomicU64,
+    hold: Option<(String, Option<String>, std::path::PathBuf)>,
+}
+
+fn split_point(spec: &str) -> (String, Option<String>) {
+    match spec.split_once('@') {
+        Some((p, t)) => (p.to_string(), Some(t.to_string())),
+        None => (spec.to_string(), None),
+    }
+}
+
+impl EnvProbe {
+    fn from_env() -> Self {
+        let trace = std::env::var_os("ZINOMA_VERIF_TRACE").and_then(|path| {
+            std::fs::OpenOptions::new()
+                .create(true)
+                .append(true)
+                .open(path)
+                .ok()
+                .map(Mutex::new)
+        });
+        let crash = std::env::var("ZINOMA_VERIF_CRASH").ok().map(|spec| {
+            let (spec, k) = match spec.rsplit_once('#') {
+                Some((s, k)) => (s.to_string(), k.parse().unwrap_or(1)),
+                None => (spec, 1),
+            };
+            let (p, t) = split_point(&spec);
+            (p, t, k)
+        });
+        let hold = std::env::var("ZINOMA_VERIF_HOLD").ok().and_then(|spec| {
+            let (spec, path) = spec.split_once('=')?;
+            let (p, t) = split_point(spec);
+            Some((p, t, std::path::PathBuf::from(path)))
+        });
+        Self {
+            trace,
+            crash,
+            crash_hits: AtomicU64::new(0),
+            hold,
+        }
+    }
+}
+
+impl Probe for EnvProbe {
+    fn event(&self, seq: u64, ev: &str, target: &str, fields: Fields) {
+        if let Some(trace) = &self.trace {
+            let mut line = format!("{{\"seq\":{},\"ev\":{},\"t\":{}", seq, js(ev), js(target));
+            for (k, v) in fields {
+                line.push_str(&format!(",{}:{}", js(k), v));
+            }
+            line.push_str("}\n");
+            let mut file = trace.lock().unwrap_or_else(|e| e.into_inner());
+            let _ = file.write_all(line.as_bytes());
+        }
+    }
+
+    fn gate(&self, point: &str, target: &str) -> Option<Gate> {
+        if let Some((p, t, k)) = &self.crash {
+            if p == point && t.as_deref().is_none_or(|t| t == target) {
+                let hits = self.crash_hits.fetch_add(1, Ordering::SeqCst) + 1;
+                if hits == *k {
+                    std::process::abort();
+                }
+            }
+        }
+        if let Some((p, t, path)) = &self.hold {
+            if p == point && t.as_deref().is_none_or(|t| t == target) {
+                let path = path.clone();
+                return Some(Box::pin(async move {
+                    while !path.exists() {
+                        async_std::task::sleep(std::time::Duration::from_millis(5)).await;
+                    }
+                }));
+            }
+        }
+        None
+    }
+}
